@@ -350,9 +350,13 @@ func (e *episode) snap(d core.Duty) snapshot {
 	return snapshot{len(e.results), len(e.subEvs), e.dl.entered[d], e.dl.skipped[d]}
 }
 
-// waitFor polls cond (under the episode lock) for up to 5 s.
+// stuck counts waits that ran into their timeout: the component did not reach the state every
+// linearisation leads to (e.g. a goroutine blocked for good). The generator then stops early.
+var stuck int
+
+// waitFor polls cond (under the episode lock) for up to 3 s.
 func (e *episode) waitFor(cond func() bool) bool {
-	deadline := time.Now().Add(5 * time.Second)
+	deadline := time.Now().Add(3 * time.Second)
 	for {
 		e.mu.Lock()
 		e.dl.mu.Lock()
@@ -363,6 +367,7 @@ func (e *episode) waitFor(cond func() bool) bool {
 			return true
 		}
 		if time.Now().After(deadline) {
+			stuck++
 			return false
 		}
 		time.Sleep(200 * time.Microsecond)
@@ -648,7 +653,16 @@ func main() {
 			run.Op(op, "ok")
 			return
 		}
-		out := ep.exec(op, partEnabled)
+		before := stuck
+		var out string
+		func() {
+			defer func() {
+				if stuck > before { // reported while rendering the op (monitors first)
+					run.Violate("conswrap:stuck", "the component did not settle within 3 s after: "+op)
+				}
+			}()
+			out = ep.exec(op, partEnabled)
+		}()
 		run.Count("op:" + f[0])
 		if f[0] == "race" {
 			run.Op(op+" ;; "+out, out)
@@ -672,7 +686,7 @@ func main() {
 
 	rng := hx.NewRng(a.Seed)
 	types := []int{1, 2, 2, 3, 7, 8, 9, 10, 11, 12, 13, 4, 6} // 4, 6: exempt in production
-	for run.NOps < a.N {
+	for run.NOps < a.N && stuck == 0 {
 		do(fmt.Sprintf("cfg %d %d", rng.Intn(4), map[bool]int{true: 1, false: 0}[!rng.Chance(1, 6)]))
 		nd := 2 + rng.Intn(4)
 		var duties []core.Duty
@@ -693,7 +707,7 @@ func main() {
 			}
 			return "s"
 		}
-		for k := 0; k < 12+rng.Intn(25); k++ {
+		for k := 0; k < 12+rng.Intn(25) && stuck == 0; k++ {
 			d := duties[rng.Intn(len(duties))]
 			ds := fmt.Sprintf("%d %d", d.Slot, int(d.Type))
 			switch c := rng.Intn(100); {
